@@ -1,6 +1,7 @@
 import VM.Driver.SchemaParse
 import VM.Impl.Post
 import VM.Spec.Post
+import VM.Driver.SchemaFam
 open Lean
 namespace VM.Driver
 open VM.Post
@@ -38,6 +39,14 @@ def runPostCase (j : Json) : Json :=
     ("pruned", jvalToJson (prune es [] v)),
     ("defaultedReq", jvalToJson (applyDefaults esR [] v)),
     ("prunedReq", jvalToJson (prune esR [] v)),
-    ("applies", Json.arr (ap.map appliesJson).toArray)]
+    ("applies", Json.arr (ap.map appliesJson).toArray),
+    -- attribution of consequences of the open C01 deviations: the model's output with one switch closed
+    ("bySwitch", Json.mkObj (switches.filterMap fun (name, f, get) =>
+      if get Impl.Cfg.asIs then
+        let esS := entriesF (f Impl.Cfg.asIs) O dl 16 s [] v
+        some (name, Json.mkObj [("defaulted", jvalToJson (applyDefaults esS [] v)), ("pruned", jvalToJson (prune esS [] v))])
+      else none)),
+    ("repaired", let esP := entriesF Impl.Cfg.repaired O dl 16 s [] v
+      Json.mkObj [("defaulted", jvalToJson (applyDefaults esP [] v)), ("pruned", jvalToJson (prune esP [] v))])]
 
 end VM.Driver
